@@ -483,7 +483,10 @@ Definition quote_key (k : bytes) : bytes :=
 (* ------------------------------------------------------------------ copy (dfs_copy, with fix D41:
    the destination is first made a map / list so that empty collections are kept).  The source is
    walked structurally; the destination is built through the API entry points with the quoted
-   keys exactly as the C code does.  vnaproperty_copy first deletes "." in the destination. *)
+   keys exactly as the C code does.  vnaproperty_copy (after fix D71) builds the copy under a
+   fresh NULL root, then frees the old content of the destination and stores the copy there: the
+   result does not depend on what the destination held, and the source is read completely before
+   the destination is released (so it may lie inside the destination or around it). *)
 Definition dot : bytes := [46].
 Fixpoint dec_digits (fuel : nat) (n : nat) (acc : bytes) : bytes :=
   match fuel with
@@ -509,7 +512,7 @@ Fixpoint dfs_copy (src : node) (dest : node) : node :=
               vec (O, d0))
   end.
 
-Definition copy (dest src : node) : node := dfs_copy src (fst (vdelete dest dot)).
+Definition copy (dest src : node) : node := dfs_copy src NNull.
 
 (* ------------------------------------------------------------------ operation scripts *)
 Inductive op :=
@@ -519,6 +522,8 @@ Inductive op :=
 | OSubDel (d d2 : bytes)      (* p = set_subtree(&root, d); if (p) vnaproperty_delete(p, d2) *)
 | OCopyOut (d : bytes)        (* vnaproperty_copy(&aux, get_subtree(root, d)) *)
 | OCopyIn (d : bytes)         (* p = set_subtree(&root, d); if (p) vnaproperty_copy(p, aux) *)
+| OCopyWithin (d d2 : bytes)  (* p = set_subtree(&root, d); s = get_subtree(root, d2); if (p) vnaproperty_copy(p, s):
+                                 source and destination in the SAME tree (d2 inside d, d inside d2, equal, disjoint) *)
 | OQuote (k : bytes).
 
 Record state := mkState { st_root : node; st_aux : node }.
@@ -526,6 +531,25 @@ Definition init_state := mkState NNull NNull.
 
 Definition sub_outcome (r : ecode + outcome) : outcome :=
   match r with inl e => mkOut (-2) e PNone | inr o => o end.
+
+(* The aliased copy.  C sequence:
+     p = vnaproperty_set_subtree(&root, d);        the path of d is conformed FIRST
+     s = vnaproperty_get_subtree(root, d2);        the source is looked up in the conformed tree (NULL when absent / error)
+     if (p != NULL) vnaproperty_copy(p, s);        *p := deep copy of s, built before the old *p is freed
+   [r1] is the tree after the first call.  The anchor p is the place descend_set reaches for d in [root]; storing
+   through p is the same walk with another function applied at the anchor (the walk itself does not depend on that
+   function: ApiProofs.descend_set_result_indep), so insert / append subscripts in d are executed once. *)
+Definition source_of (r1 : node) (d2 : bytes) : node :=
+  match get_node r1 d2 with inr n => n | inl _ => NNull end.
+
+Definition copy_within (root : node) (d d2 : bytes) : node * outcome :=
+  let '(r1, res1) := vset_subtree_then root d (fun a => (a, tt)) in
+  match res1 with
+  | inl e => (r1, mkOut (-2) e PNone)
+  | inr _ =>
+    let '(r2, res2) := vset_subtree_then root d (fun a => (copy a (source_of r1 d2), ok0)) in
+    (r2, sub_outcome res2)
+  end.
 
 Definition step (s : state) (o : op) : state * outcome :=
   let root := st_root s in
@@ -549,6 +573,7 @@ Definition step (s : state) (o : op) : state * outcome :=
   | OCopyIn d =>
     let '(r', res) := vset_subtree_then root d (fun a => (copy a aux, ok0)) in
     (mkState r' aux, sub_outcome res)
+  | OCopyWithin d d2 => let '(r', out) := copy_within root d d2 in (mkState r' aux, out)
   | OQuote k => (s, mkOut 0 E0 (PStr (quote_key k)))
   end.
 
